@@ -217,5 +217,6 @@ def harnesses(tier):
     return [
         ("bounds-step", h_bounds_step, bounds_cases(tier)),
         ("live", h_live, live_cases(tier)),
+        ("live.raw", h_live, [c for c in live_cases(tier) if c["where"] in ("plain", "group")], dict(raw=True)),
         ("invalid", h_invalid_value, [dict(which=w, side=s) for w in ("bs", "loss", "bs-loss") for s in ("below", "above")]),
     ]
